@@ -76,7 +76,7 @@ pub enum Case {
     /// a push in `form` declaring `len` bytes with len-1 / len / len+1 bytes available (delta = -1, 0, 1)
     BoundaryPush { form: u8, len: u32, delta: i8 },
     /// `depth` nested conditionals
-    Nest { depth: u32, with_else: bool, code: u8, closed: bool },
+    Nest { depth: u32, with_else: bool, code: u8, closed: bool, #[serde(default)] via_else: bool },
     /// get_pushdata_bytes(len)
     PrefixLen { len: u64 },
     /// encode_pushdata(data)
@@ -285,7 +285,10 @@ impl Property for C02 {
             for code in [99u8, 100, 101, 102] {
                 for with_else in [false, true] {
                     for closed in [true, false] {
-                        if !emit(Case::Nest { depth, with_else, code, closed }, f) {
+                        if !emit(Case::Nest { depth, with_else, code, closed, via_else: false }, f) {
+                            return;
+                        }
+                        if with_else && !emit(Case::Nest { depth, with_else, code, closed, via_else: true }, f) {
                             return;
                         }
                     }
@@ -333,7 +336,7 @@ impl Property for C02 {
             }),
             6 => (gs::elements(false, false, 2, false), prop::collection::vec((prop::sample::select(vec![99u8, 100, 101, 102]), any::<bool>(), gs::elements(false, false, 1, false)), 1..4))
                 .prop_map(|(prefix, opens)| Case::Unterminated { prefix, opens }),
-            3 => (1u32..200, any::<bool>(), prop::sample::select(vec![99u8, 100]), prop::bool::weighted(0.7)).prop_map(|(depth, with_else, code, closed)| Case::Nest { depth, with_else, code, closed }),
+            3 => (1u32..200, any::<bool>(), prop::sample::select(vec![99u8, 100]), prop::bool::weighted(0.7)).prop_map(|(depth, with_else, code, closed)| Case::Nest { depth, with_else, code, closed, via_else: with_else && depth % 2 == 0 }),
             5 => prop_oneof![
                     3 => (1u64..70000),
                     2 => any::<u32>().prop_map(|v| v as u64),
@@ -430,10 +433,10 @@ impl Property for C02 {
                 let tree = if *delta == 0 { Some(vec![El::Push(*form, Bytes::Lit(fill(have)))]) } else { None };
                 check_script_bytes(&bytes, must, tree.as_deref(), &mut o)?;
             }
-            Case::Nest { depth, with_else, code, closed } => {
+            Case::Nest { depth, with_else, code, closed, via_else } => {
                 o.nt("nest");
                 o.label_if(*depth >= 64, "depth>=64");
-                let els = gs::nest(*depth, *with_else, *code);
+                let els = if *via_else { gs::nest_via_else(*depth, *code) } else { gs::nest(*depth, *with_else, *code) };
                 let mut bytes = gs::to_bytes(&els);
                 if !*closed {
                     bytes.pop(); // drop the outermost ENDIF
